@@ -416,6 +416,11 @@ func genC16p(rng *hx.Rng, n int, tier string, emit func(hx.Input)) {
 		if pos >= len(roots) {
 			plies = rng.Intn(60)
 		}
+		if pos%5 == 4 {
+			// positions with an en-passant capture available (and their neighbourhood)
+			root = c16EpRoots[(pos/5)%len(c16EpRoots)]
+			plies = rng.Intn(3)
+		}
 		b, hist := c16Playout(rng, root, plies)
 		fen := c16Fen(b)
 		noisy, quiet := c16Generated(b)
@@ -490,6 +495,13 @@ func genC16p(rng *hx.Rng, n int, tier string, emit func(hx.Input)) {
 		}
 		// no hash move
 		mk(0, "none")
+		// special generated moves always: en-passant captures, promotions and castlings are the moves whose
+		// classification as noisy/quiet does not follow from the content of the destination square
+		for _, m := range all {
+			if b.IsEnPassant(m) || m.Promo() != NoPiece || (b.SquaresToPiece[m.From()] == King && Abs(m.From()-m.To()) == 2) {
+				mk(m, "generated-special")
+			}
+		}
 		// generated moves (every one of them for the roots, a sample otherwise)
 		if pos < len(roots) && pos < 12 {
 			for _, m := range all {
@@ -520,6 +532,19 @@ func genC16p(rng *hx.Rng, n int, tier string, emit func(hx.Input)) {
 			}
 		}
 	}
+}
+
+var c16EpRoots = []string{
+	"rnbqkbnr/ppp1pppp/8/8/3pP3/8/PPPP1PPP/RNBQKBNR b KQkq e3 0 3",
+	"rnbqkbnr/pppp1ppp/8/3Pp3/8/8/PPP1PPPP/RNBQKBNR w KQkq e6 0 3",
+	"4k3/8/8/2pP4/8/8/8/4K3 w - c6 0 2",
+	"8/8/8/8/k2pP2R/8/8/4K3 b - e3 0 1",
+	"2r3k1/1q1nbppp/r3p3/3pP3/pPpP4/P1Q2N2/2RN1PPP/2R4K b - b3 0 23",
+	"8/6bb/8/8/R1pP2k1/4P3/P7/K7 b - d3 0 1",
+	"r3k2r/p1ppqpb1/bn2pnp1/3PN3/Pp2P3/2N2Q1p/1PPBBPPP/R3K2R b KQkq a3 0 1",
+	"rnbqkb1r/ppppp1pp/7n/4Pp2/8/8/PPPP1PPP/RNBQKBNR w KQkq f6 0 3",
+	"4k3/8/8/1pP1Pp2/8/8/8/4K3 w - b6 0 2",
+	"4k3/8/8/8/1pPp4/8/8/4K3 b - c3 0 2",
 }
 
 // ---------------------------------------------------------------------------------------------
